@@ -141,12 +141,18 @@ def main():
         if rc != 0:
             res["repo_apply_failed"] = out
         else:
-            for p in order:
+            from concurrent.futures import ThreadPoolExecutor
+
+            def one(p):
                 t0 = time.time()
                 rc, out = sh(["./check", p, tier], cwd=VERIF, timeout=3600)
                 line = [l for l in out.splitlines() if l.startswith(("VIOLATION", "OK ", "INCONCLUSIVE"))]
-                viol = [l for l in out.splitlines() if "violated" in l or "DATA RACE" in l][:2]
-                res["checks"][p] = {"rc": rc, "line": line[-1] if line else "", "why": viol, "wall_s": round(time.time() - t0, 1)}
+                viol = [l.strip()[:400] for l in out.splitlines() if "violated" in l or "DATA RACE" in l][:2]
+                return p, {"rc": rc, "line": line[-1] if line else "", "why": viol, "wall_s": round(time.time() - t0, 1)}
+
+            with ThreadPoolExecutor(max_workers=int(os.environ.get("SEEDTEST_PAR", "5"))) as ex:
+                for p, r in ex.map(one, order):
+                    res["checks"][p] = r
     finally:
         sh(["git", "-C", REPO, "checkout", "--", "."])
         os.remove(eff)
